@@ -14,6 +14,7 @@ pub fn run_cursor(bufsize: usize, evs: Vec<Ev>) -> String {
         let sh = Arc::new(Mutex::new(Shared { script: evs.into(), ..Default::default() }));
         let ipc = ScriptIpc { sh: sh.clone(), flag: flag.clone() };
         let mut buf = vec![0u8; bufsize];
+        let flag2 = flag.clone();
         let mut b = Backend::new(ipc, flag, &mut buf[..]);
         let mut out: Vec<String> = vec![];
         let mut iters = 0usize;
@@ -21,6 +22,10 @@ pub fn run_cursor(bufsize: usize, evs: Vec<Ev>) -> String {
             out.push(format!("{}@{:x}", msg_str(&m), a));
             iters += 1;
             if iters > 200_000 { return "NOPROGRESS".to_string(); }
+        }
+        // a stopped backend stays stopped: asking again yields nothing (and never re-delivers a message)
+        if !flag2.load(std::sync::atomic::Ordering::SeqCst) {
+            for _ in 0..3 { if let Some((m, a)) = b.next() { out.push(format!("AFTER-STOP:{}@{:x}", msg_str(&m), a)); } }
         }
         if out.is_empty() { "OK -".to_string() } else { format!("OK {}", out.join(" ; ")) }
     });
